@@ -261,6 +261,8 @@ class Interp:
                         v = a.v * b.v
                     return Const(v)
                 return Sc()
+            if isinstance(a, Box) and isinstance(b, Const) or isinstance(b, Box) and isinstance(a, Const):
+                return Box()  # box lengths scaled by a constant (half lengths): still per-axis box data
             raise Undecidable(f"product of {a} and {b}")
         if isinstance(op, (ast.Div, ast.FloorDiv)):
             if isinstance(b, Vec) or isinstance(b, Rows):
